@@ -74,7 +74,7 @@ func (s *sg) eg() *eg {
 			bad[v] = classK2
 		}
 	}
-	return &eg{t: s.t, badVars: bad, noCalls: s.law == "json", noBigInt: s.law == "json", nonzero: s.law == "tick", count: s.r.Exclude, vars: map[string][]string{
+	return &eg{t: s.t, badVars: bad, emptyRe: s.emptyRe, noCalls: s.law == "json", noBigInt: s.law == "json", nonzero: s.law == "tick", count: s.r.Exclude, vars: map[string][]string{
 		"num":  append(append([]string{}, s.vars["int"]...), append(s.vars["float"], s.vars["lnum"]...)...),
 		"bool": append(append([]string{}, s.vars["bool"]...), s.vars["lbool"]...),
 		"str":  s.vars["str"],
